@@ -84,8 +84,8 @@ func (atm *ApplyTimeMutator) Mutate(ctx context.Context, obj *unstructured.Unstr
 
 		// validate no self-references
 		// Re-check to catch sources with implicit namespace.
-		if targetRef.Equal(sub.SourceRef) {
-			return mutated, reason, fmt.Errorf("invalid self-reference (%s)", sub.SourceRef)
+		if targetRef.Equal(sourceRef) {
+			return mutated, reason, fmt.Errorf("invalid self-reference (%s)", sourceRef)
 		}
 
 		// lookup source object from cache or cluster
